@@ -441,7 +441,13 @@ def emit_extract(gen, ex, repo_root, unit):
             before, after = b.text(), '\n'.join(b.with_lines or [])
             cnt_opt = parse_opts(b.arg.split()).get('count', 1)
             found = [m for m in ws_pattern(before).finditer(item)]
-            cnt = len(found) if (cnt_opt == 'any' and found) else (-1 if cnt_opt == 'any' else int(cnt_opt))
+            if cnt_opt == 'opt' and len(found) <= 1:
+                # an optional rewrite: applied when its text is present, skipped when the repository no longer has that construct
+                if not found:
+                    continue
+                cnt = 1
+            else:
+                cnt = len(found) if (cnt_opt == 'any' and found) else (-1 if cnt_opt in ('any', 'opt') else int(cnt_opt))
             occ = [m.start() for m in found]
             if bodyless and len(occ) == 0:
                 continue  # a rewrite of body text: the body of an assumed function is not copied
